@@ -302,3 +302,21 @@ def loop_exit_rule(ctx, rule, table):
         ctx.check(len(found) <= allowed, rule, root, "loop-exits",
                   "the loops of %s end only when their iterator is exhausted or with an error, apart from %d reviewed exit(s) (break / while condition / early Ok)" % (root.split("::")[-1], allowed),
                   detail="%d found: %s" % (len(found), found))
+
+
+def for_each_form(body, iter_patterns, roles=None):
+    """`ITER.for_each(closure)` in place of `for x in ITER { .. }`: returns (block, closure body,
+    [shapes of the crate-local calls the closure makes, capture markers removed]) for a for_each
+    call whose iterator matches one of the patterns, else None."""
+    for bi, t in body.calls():
+        if q.nice(t.get("callee")) != "Iterator::for_each":
+            continue
+        it = q.shape(q.arg_expr(body, t, 0), roles)
+        if not any(q.wild(p, it) for p in iter_patterns):
+            continue
+        cl = q.callable_body(q.arg_expr(body, t, 1))
+        if cl is None:
+            continue
+        calls = [q.shape(cl.expr_of_call(t2)).replace("^", "") for b2, t2 in cl.calls() if t2.get("resolved_local")]
+        return bi, cl, calls
+    return None
